@@ -203,3 +203,145 @@ def replay_case(res, inp, spec_demand=True):
     impl = run_impl(ch, eager)
     compare(res, inp, impl, parse(driver_batch([request(ch, eager)])[0]), spec_demand)
     res.sample(dict(chunks=inp["chunks"], eager=eager, observed=[[list(o), [list(t) for t in tr]] for o, tr in impl][:12]))
+
+
+# ---------------------------------------------------------------------------------------------------------------------------
+# arbitrary interleavings of chunk arrival and reader progress (Model/ReaderSched, driver op `sched`;
+# C04.every_interleaving_prefix / every_interleaving_complete): moves 'a' = the next chunk (or the end of the stream) arrives,
+# whether or not the reader waits; 'r' = the reader runs until its call completes or is suspended again (between calls: the
+# caller starts the next read()).  Compared after the LAST move: completed calls, where the current call is suspended, how many
+# bytes the StreamReader buffers, whether the caller has been told that the connection is lost.
+
+
+async def _run_moves(chunks, moves):
+    sr = asyncio.StreamReader()
+    fr = FrameReader(sr)
+    stream = b"".join(chunks)
+    pending = list(chunks)
+    fed, eof, before = 0, False, 0
+    out, task, finished = [], None, False
+    for m in moves:
+        if m == "a":
+            if pending:
+                c = pending.pop(0)
+                fed += len(c)
+                if c:
+                    sr.feed_data(c)
+            elif not eof:
+                eof = True
+                sr.feed_eof()
+            continue
+        if finished:
+            continue
+        if task is None:
+            task = asyncio.ensure_future(fr.read())
+        for _ in range(100000):
+            await asyncio.sleep(0)
+            if task.done() or sr._waiter is not None:
+                break
+        else:
+            task.cancel()
+            raise RuntimeError("chunks harness: no progress")
+        if not task.done():
+            continue
+        n = fed - len(sr._buffer) - before
+        before += n
+        exc = task.exception()
+        if exc is None:
+            f = task.result()
+            o = ("I", n) if f is None else ("D", int(f.frame_type), int(f.recipient), int(f.sender), int(f.econet_type),
+                                            int(f.econet_version), hexs(f.message), n)
+        elif isinstance(exc, ProtocolError):
+            o = ("E", n)
+        elif isinstance(exc, asyncio.TimeoutError):
+            o = ("T", n)
+        elif isinstance(exc, OSError):
+            o = ("L", n)
+            finished = True
+        else:
+            o = ("X", type(exc).__name__, n)
+            finished = True
+        out.append(o)
+        task = None
+    # where the current call stands
+    taken = fed - len(sr._buffer) - before
+    seg = stream[before:before + taken]
+    k = seg.find(b"\x68")
+    since = taken - k if k >= 0 else 0
+    state = "S" if since == 0 else "H" if since == 1 else "B" if since == 7 else f"?{since}"
+    buffered = len(sr._buffer)
+    if task is not None and not task.done():
+        task.cancel()
+        await asyncio.gather(task, return_exceptions=True)
+    return out, (state, buffered, finished)
+
+
+def run_moves(chunks, moves):
+    return vloop.run(_run_moves([bytes(c) for c in chunks], moves))
+
+
+def random_moves(rng, n_chunks, n_bytes):
+    """a schedule: mostly fair (everything arrives, the reader runs often), in a random order, with bursts of arrivals, bursts of
+    runs (spurious wake-ups) and sometimes cut short"""
+    a = n_chunks + 1 + rng.choice([0, 0, 1])
+    r = rng.choice([n_bytes // 8 + 4, n_bytes // 3 + 4, n_bytes + 3])
+    mode = rng.random()
+    if mode < 0.5:
+        ms = ["a"] * a + ["r"] * r
+        rng.shuffle(ms)
+    elif mode < 0.75:
+        ms = []
+        left_a = a
+        while left_a or r > 0:
+            k = rng.randint(0, 3)
+            ms += ["a"] * min(k, left_a)
+            left_a -= min(k, left_a)
+            k = rng.randint(0, 4)
+            ms += ["r"] * k
+            r -= k
+    else:
+        ms = ["r"] * rng.randint(0, 2) + ["a"] * a + ["r"] * r
+    if rng.random() < 0.2:
+        ms = ms[:rng.randrange(len(ms) + 1)]
+    else:
+        ms += ["a"] * 2 + ["r"] * (n_bytes // 10 + 6)     # let it reach the end
+    return "".join(ms) or "r"
+
+
+def compare_moves(res, inp, impl, ans):
+    outs_s, st = ans.split(" @ ")
+    import reader
+    model = [] if outs_s == "-" else [("E", m[1]) if m[0] == "E" else m for m in reader.canon_model(reader.parse_model(outs_s))]
+    w = st.split(" ")
+    mstate = (w[0], int(w[1]), w[2] == "1")
+    got = [("E", o[-1]) if o[0] == "E" else o for o in impl[0]]
+    if got != model or impl[1] != mstate:
+        res.fail("corr", inp, dict(calls=[list(o) for o in model], state=list(mstate)), dict(calls=[list(o) for o in got], state=list(impl[1])),
+                 "reader + arrival system (Model/ReaderSched: any order of arrivals and runs) and FrameReader.read() on a StreamReader differ")
+        return False
+    return True
+
+
+def evaluate_moves(res, labelled_streams, rng, schedules_per_stream=2):
+    from common import driver_batch
+    cases = []
+    for label, s in labelled_streams:
+        for _ in range(schedules_per_stream):
+            ch, _ = random_schedule(rng, s)
+            cases.append((label, ch, random_moves(rng, len(ch), len(s))))
+    answers = driver_batch("sched " + ms + " " + "+".join(hexs(c) for c in ch) for _, ch, ms in cases)
+    for (label, ch, ms), ans in zip(cases, answers):
+        inp = dict(via="moves", chunks=[c.hex() for c in ch], moves=ms, label=label)
+        impl = run_moves(ch, ms)
+        compare_moves(res, inp, impl, ans)
+        res.count("interleavings")
+        res.count("interleaving-ends:" + ("finished" if impl[1][2] else "suspended-in-" + impl[1][0]))
+    return len(cases)
+
+
+def replay_moves(res, inp):
+    from common import driver_batch
+    ch = [bytes.fromhex(c) for c in inp["chunks"]]
+    impl = run_moves(ch, inp["moves"])
+    compare_moves(res, inp, impl, driver_batch(["sched " + inp["moves"] + " " + "+".join(hexs(c) for c in ch)])[0])
+    res.sample(dict(chunks=inp["chunks"], moves=inp["moves"], observed=[[list(o) for o in impl[0]], list(impl[1])]))
